@@ -74,6 +74,16 @@ fn main() {
             let der = in_toto::crypto::PrivateKey::new(kt).unwrap();
             out.write_all(&der).unwrap();
         }
+        "loadkey" => {
+            // diagnostic: itv loadkey <pkcs8.der>  - which schemes accept this key
+            let der = std::fs::read(&args[2]).unwrap();
+            for sch in [in_toto::crypto::SignatureScheme::RsaSsaPssSha256, in_toto::crypto::SignatureScheme::Ed25519, in_toto::crypto::SignatureScheme::EcdsaP256Sha256] {
+                let r = in_toto::crypto::PrivateKey::from_pkcs8(&der, sch.clone());
+                writeln!(out, "{:?}: {}", sch, match r { Ok(k) => format!("ok id {:?}", k.key_id()), Err(e) => format!("ERR {e}") }).unwrap();
+            }
+            let r = ring::signature::RsaKeyPair::from_pkcs8(&der);
+            writeln!(out, "ring RsaKeyPair::from_pkcs8: {:?}", r.map(|k| k.public_modulus_len())).unwrap();
+        }
         "replay" => {
             for (i, line) in std::io::stdin().lock().lines().enumerate() {
                 let line = line.unwrap();
